@@ -250,6 +250,7 @@ func (q *c08Seq) runC09Lines(lines []string) {
 			for i, s := range q.k.stores {
 				if s.kind == "fs" {
 					t, b := c09MakeLeftovers(s.dir)
+					q.k.handMade[t], q.k.handMade[b] = true, true
 					left = append(left, [3]string{fmt.Sprint(i), "tmp", t}, [3]string{fmt.Sprint(i), "txbackup", b})
 				}
 			}
@@ -290,6 +291,7 @@ func runC09(args []string) {
 				out.Line("cfg kind=c09 %s gc=end grace=tiny", stk.cfgTokens())
 				q := newC08Seq(ctx, out, stk, verifx.NewRng(seed), "none")
 				q.judge = false
+				q.extras = true
 				q.runC09Lines(lines)
 				out.End()
 				stk.close(false)
@@ -328,6 +330,7 @@ func runC09(args []string) {
 			out.Line("cfg kind=c09 %s gc=end grace=tiny mode=%s anoms=%v", stk.cfgTokens(), mode, withAnoms)
 			q := newC08Seq(ctx, out, stk, r, "none")
 			q.judge = false
+			q.extras = true
 			cg := &c08Gen{g: &s3hGen{r: r, c: q.c, mode: mode}, r: r}
 			func() {
 				defer func() {
